@@ -239,8 +239,36 @@ def build_data(term):
     return tree_from_flat(t, np.asarray(term["data"], dtype=float))
 
 
+_DEFAULTS_CLS = None
+
+
+def defaults_of(base):
+    """a likelihood that only DEFINES energy and transformation (taken from `base`) and therefore runs the defaults of
+    `Likelihood`: left_sqrt_metric = pull-back (vjp) of the transformation, right = its transpose, metric = L o R"""
+    global _DEFAULTS_CLS
+    j = jft()
+    if _DEFAULTS_CLS is None:
+        class DefaultsOf(j.Likelihood):
+            def __init__(self, base):
+                self._base = base
+                super().__init__(domain=base.domain, lsm_tangents_shape=base.lsm_tangents_shape)
+
+            def energy(self, primals):
+                return self._base.energy(primals)
+
+            def transformation(self, primals):
+                return self._base.transformation(primals)
+        _DEFAULTS_CLS = DefaultsOf
+    return _DEFAULTS_CLS(base)
+
+
 def build_lh(term, data=None):
     """the REAL likelihood object for one term (`data` overrides the case's data, possibly traced)"""
+    lh = _build_lh(term, data)
+    return defaults_of(lh) if term.get("defaults") else lh
+
+
+def _build_lh(term, data=None):
     j = jft()
     k = term["kind"]
     data = build_data(term) if data is None else data
@@ -300,11 +328,13 @@ def _act(name, z, shape):
     raise ValueError(name)
 
 
-def forward_flat(term, xflat):
+def forward_flat(term, xflat, skip_pre=False):
     """harness forward model in flat coordinates: latent real vector -> real coordinates of the lh primals"""
     jnp = jx().numpy
     m = term["model"]
     A = jnp.asarray(np.asarray(m["A"], dtype=float)).reshape(len(m["b"]), -1)
+    if m.get("pre") is not None and not skip_pre:
+        xflat = jnp.asarray(np.asarray(m["pre"], dtype=float)) @ xflat
     z = A @ xflat + jnp.asarray(np.asarray(m["b"], dtype=float))
     out, off = [], 0
     ps = primal_spec(term)
@@ -320,13 +350,26 @@ def forward_flat(term, xflat):
     return jnp.concatenate(out)
 
 
-def forward_tree_fn(term, lat):
+def forward_tree_fn(term, lat, skip_pre=False):
     """the callable handed to `Likelihood.amend`: latent pytree -> primal pytree of the likelihood"""
     ps = primal_spec(term)
 
     def f(x):
-        return build_from_spec(ps, forward_flat(term, realflat(x)))
+        return build_from_spec(ps, forward_flat(term, realflat(x), skip_pre))
     return f
+
+
+def pre_tree_fn(term, lat):
+    """first link of a chain `lh.amend(f).amend(g)`: the linear re-parametrisation g: latent tree -> latent tree"""
+    lspec = latent_spec(lat)
+    P = np.asarray(term["model"]["pre"], dtype=float)
+
+    def g(x):
+        jnp = jx().numpy
+        v = jnp.asarray(P) @ realflat(x)
+        leaves = leaves_from_flat(lspec["leaves"], v)
+        return wrap_leaves(lspec["wrap"], leaves)
+    return g
 
 
 # ---------------------------------------------------------------------------------------------------
@@ -359,6 +402,13 @@ def assemble(case, bases, lsm_override=True):
         x = tree_from_flat(lspec, np.asarray(case["x"], dtype=float))
         lhs = []
         for term, base in zip(terms, bases):
+            if term["model"].get("pre") is not None:
+                # LikelihoodWithModel.amend -> _ChainModel
+                # (the chained forward model is a LazyModel without domain: hand the domain to `amend`, otherwise a
+                #  later LikelihoodSum cannot evaluate `.domain` of the summand)
+                dom = jax.tree_util.tree_map(j.ShapeWithDtype.from_leave, x)
+                lhs.append(base.amend(forward_tree_fn(term, lat, skip_pre=True)).amend(pre_tree_fn(term, lat), domain=dom))
+                continue
             f = forward_tree_fn(term, lat)
             if term["model"].get("lazy"):
                 f = j.Model(f, domain=jax.tree_util.tree_map(j.ShapeWithDtype.from_leave, x))
